@@ -82,8 +82,13 @@ class Part(V):
 class Val(V):
     """an opaque value read from a part: callable (the call is logged as a call of that attribute), subscriptable, usable in arithmetic"""
 
+    absorbing = True
+
     def __init__(self, tag):
         self.tag = tag
+
+    def absorb(self, what):
+        return Val(what + "(" + self.tag + ")")
 
     def vcall(self, e, st, a, kw):
         owner, _, attr = self.tag.rpartition(".")
@@ -497,5 +502,305 @@ def u_parameters(root):
     return eng
 
 
+
+# ------------------------------------------------------------------ do_fit typestate
+def u_freeze(root):
+    eng = fit_engine(root)
+    # (1) freeze / unfreeze brackets use the same list and the full protocol
+    for cls in ("XYFit", "IndexedFit", "HistFit", "UnbinnedFit"):
+        L = ("node_p", "node_q")
+        mk(eng, cls, "_get_node_names_to_freeze", result=lambda vw: (log(vw.post, "names_for", show_bool(vw.args["first_fit"])), VTuple([VStr(x) for x in L]))[1])
+        for first in (True, False):
+            c = Contract(cls, "_pre_fit_iteration")
+            c.ensures.append(lambda vw, first=first: [("the list is asked for with the same first_fit flag", z3.BoolVal([x[1] for x in fx(vw, "names_for")] == [str(first)])),
+                                                      ("every node of the list is brought up to date, THEN frozen; nothing else is touched", z3.BoolVal([(c_[0], c_[1]) for c_ in vw.post.ghost.get("node_calls", ())] == [(n_, op) for n_ in L for op in ("update", "freeze")]))])
+            eng.verify(cls, "_pre_fit_iteration", None, lambda e, st, me_, first=first: (e.write_field(st, me_, "_nexus", RecNexus()), {"first_fit": VBool(z3.BoolVal(first))})[1], contract=c, tag=f"[{cls},first_fit={first}]")
+            c = Contract(cls, "_post_fit_iteration")
+            c.ensures.append(lambda vw, first=first: [("the list is asked for with the same first_fit flag", z3.BoolVal([x[1] for x in fx(vw, "names_for")] == [str(first)])),
+                                                      ("every node of the list is unfrozen, recomputed and announced to its parents; nothing stays frozen", z3.BoolVal([(c_[0], c_[1]) for c_ in vw.post.ghost.get("node_calls", ())] == [(n_, op) for n_ in L for op in ("unfreeze", "update", "notify_parents")]))])
+
+            def init_post(e, st, me_, first=first):
+                e.write_field(st, me_, "_nexus", RecNexus())
+                e.write_field(st, me_, "_cost_function", Part("cost_function", {"is_chi2": VBool(z3.Bool("is_chi2")), "fast_math": VBool(z3.Bool("fast_math"))}))
+                return {"runtime": VNum(z3.Real("runtime")), "first_fit": VBool(z3.BoolVal(first))}
+            eng.verify(cls, "_post_fit_iteration", None, init_post, contract=c, tag=f"[{cls},first_fit={first}]")
+    # (2) which nodes: decided by the configuration only (dynamic-error algorithm, model-relative sources, x uncertainties) - the same question gets the same answer before and after a minimisation
+    for cls in ("XYFit", "IndexedFit", "HistFit"):
+        merr, proj = list(class_table(eng, cls, "_MODEL_ERROR_NODE_NAMES")), (list(class_table(eng, cls, "_PROJECTED_NODE_NAMES")) if cls == "XYFit" else [])
+        for dea in ("nonlinear", "iterative"):
+            for rel in (False, True):
+                for xerr in ((False, True) if cls == "XYFit" else (False,)):
+                    for first in (True, False):
+                        inline(eng, cls, "has_x_errors") if cls == "XYFit" else None
+                        mk(eng, "FitBase", "_get_node_names_to_freeze", inline=True)
+                        c = Contract(cls, "_get_node_names_to_freeze")
+
+                        def post(vw, merr=merr, proj=proj, dea=dea, rel=rel, xerr=xerr, first=first):
+                            want = (merr if (first or not rel or dea == "iterative") else [])
+                            if proj and (dea == "iterative" or (first and xerr)):
+                                want = proj + want
+                            got = [x.s for x in vw.result.items] if isinstance(vw.result, VTuple) else ([] if isinstance(vw.result, VSeq) else None)
+                            return [("frozen during a minimisation: the model-uncertainty nodes in the first pass, without model-relative sources, or with the iterative algorithm; for xy data also the projected totals (iterative, or first pass with x uncertainties); nothing else",
+                                     z3.BoolVal(got == want)), ("the answer reads the configuration only (no graph access, no assignment)", z3.BoolVal(not vw.post.ghost.get("node_calls") and not fx(vw, "set")))]
+                        c.ensures.append(post)
+
+                        def init(e, st, me_, dea=dea, rel=rel, xerr=xerr, first=first):
+                            e.write_field(st, me_, "_dynamic_error_algorithm", VStr(dea))
+                            e.write_field(st, me_, "_param_model", Part("model", {"get_matching_errors": Fn(lambda e_, st_, a, kw: VDict({"src": Val("source")} if rel else {})), "has_x_errors": VBool(z3.BoolVal(False))}))
+                            e.write_field(st, me_, "_data_container", Part("container", {"has_x_errors": VBool(z3.BoolVal(xerr))}))
+                            return {"first_fit": VBool(z3.BoolVal(first))}
+                        eng.verify(cls, "_get_node_names_to_freeze", None, init, contract=c, tag=f"[{cls},{dea},model-relative={rel},x-errors={xerr},first_fit={first}]")
+    return eng
+
+
+def u_do_fit(root):
+    """do_fit: balanced brackets around every minimisation, results from a file dropped, cost target by diagonality"""
+    eng = fit_engine(root)
+    eng.missing_attr_raises = True
+    eng.lib["kc"] = lambda e, st, a, kw, node: VNum(z3.IntVal(2)) if a[-1].s == "max_iterations" else VNum(z3.Real("convergence_limit"))
+    eng.lib["float"] = lambda e, st, a, kw, node: a[0]
+    eng.lib["abs"] = lambda e, st, a, kw, node: VNum(z3.If(a[0].real() >= 0, a[0].real(), -a[0].real()))
+    eng.lib["is_diagonal"] = lambda e, st, a, kw, node: VBool(z3.Bool("total_cov_mat_is_diagonal"))
+    for cls in ("XYFit", "IndexedFit"):
+        for mode in ("single", "second", "iterative"):
+            for pointwise in (True, False):
+                mk(eng, "FitBase", "_pre_fit_iteration", result=lambda vw: (log(vw.post, "pre", show_bool(vw.args.get("first_fit", VBool(z3.BoolVal(False))))), VNone())[1])
+                mk(eng, "FitBase", "_post_fit_iteration", result=lambda vw: (log(vw.post, "post", show_bool(vw.args.get("first_fit", VBool(z3.BoolVal(False))))), VNone())[1])
+                mk(eng, cls, "_set_data_as_model_ref", result=lambda vw: (log(vw.post, "data_as_ref"), VNone())[1])
+                mk(eng, cls, "_iterative_fits_needed", result=lambda vw, mode=mode: VBool(z3.BoolVal(mode == "iterative")))
+                mk(eng, cls, "_second_fit_needed", result=lambda vw, mode=mode: VBool(z3.BoolVal(mode == "second")))
+                mk(eng, "FitBase", "has_errors", "getter", result=lambda vw: VBool(z3.Bool("has_errors")))
+                mk(eng, "FitBase", "total_cov_mat", "getter", result=lambda vw: Val("total_cov_mat"))
+                mk(eng, "FitBase", "cost_function_value", "getter", result=lambda vw: VNum(z3.FreshReal("cost")))
+                mk(eng, "FitBase", "parameter_names", "getter", result=lambda vw: VTuple([VStr(x) for x in NAMES]))
+                mk(eng, "FitBase", "_update_parameter_formatters", result=lambda vw: (log(vw.post, "formatters"), VNone())[1])
+                mk(eng, "FitBase", "get_result_dict", result=lambda vw: (log(vw.post, "result_dict"), Val("result_dict"))[1])
+                if cls == "XYFit":
+                    mk(eng, "XYFit", "y_model", "getter", result=lambda vw: Val("y_model"))
+                else:
+                    mk(eng, "IndexedFit", "model", "getter", result=lambda vw: Val("model"))
+                c = Contract(cls, "do_fit")
+
+                def post(vw, mode=mode, pointwise=pointwise):
+                    if vw.flow == "raise":
+                        return [("no exception", z3.BoolVal(False))]
+                    ev = []
+                    for x in fx(vw):
+                        if x[0] in ("pre", "post"):
+                            ev.append(x[0] + ":" + x[1])
+                        elif x[0] == "call" and x[1] == "fitter" and x[2] in ("do_fit", "reset_minimizer"):
+                            ev.append(x[2])
+                        elif x[0] in ("data_as_ref", "formatters", "result_dict"):
+                            ev.append(x[0])
+                    bracket = lambda first, reset: ["pre:%s" % first] + (["reset_minimizer"] if reset else []) + ["do_fit", "post:%s" % first]
+                    core_ = [e_ for e_ in ev if e_ not in ("formatters", "result_dict")]
+                    ok_seq = core_[:4] == ["data_as_ref"] + bracket(True, False)
+                    rest = core_[4:]
+                    if mode == "single":
+                        ok_seq = ok_seq and rest == []
+                    elif mode == "second":
+                        ok_seq = ok_seq and rest == bracket(False, True)
+                    else:
+                        ok_seq = ok_seq and rest in ([], bracket(False, True), bracket(False, True) * 2) and len(rest) >= 4
+                    target = [x for x in fx(vw, "set") if x[1] == "fitter" and x[2] == "parameter_to_minimize"]
+                    diag = z3.Bool("total_cov_mat_is_diagonal")
+                    out = [("model-relative sources take the data as reference for the first pass, then every minimisation is bracketed by freeze (before) and unfreeze (after) with the SAME first_fit flag; later passes start from a reset minimizer; nothing is left open", z3.BoolVal(ok_seq)),
+                           ("results loaded from a file no longer shadow the live ones", z3.BoolVal(isinstance(vw.f(vw.post, vw.self, "_loaded_result_dict"), VNone))),
+                           ("the formatters are refreshed after the last minimisation, and the result dictionary is built last", z3.BoolVal(ev[-2:] == ["formatters", "result_dict"]))]
+                    if pointwise:
+                        out.append(("the pointwise cost function is minimised iff the total covariance matrix is diagonal, else the general one; chosen before the first minimisation",
+                                    z3.And(z3.BoolVal(len(target) == 1 and isinstance(target[0][3], VStr)), diag == z3.BoolVal(target[0][3].s == "chi2_pointwise")) if len(target) == 1 and isinstance(target[0][3], VStr) else z3.BoolVal(False)))
+                    else:
+                        out.append(("without a pointwise version the cost target is left alone", z3.BoolVal(not target)))
+                    return out
+                c.ensures.append(post)
+
+                def init(e, st, me_, pointwise=pointwise):
+                    e.write_field(st, me_, "_nexus", RecNexus())
+                    e.write_field(st, me_, "_fitter", Part("fitter", {"do_fit": Fn(lambda e_, st_, a, kw: VNum(z3.FreshReal("runtime")))}))
+                    e.write_field(st, me_, "_cost_function", Part("cost_function", {"name": VStr("chi2"), "needs_errors": VBool(z3.Bool("needs_errors"))}))
+                    e.write_field(st, me_, "_cost_function_pointwise", Part("pointwise", {"name": VStr("chi2_pointwise")}) if pointwise else VNone())
+                    e.write_field(st, me_, "_fit_param_names_bad_default", VPySet(frozenset(["a"])))
+                    e.write_field(st, me_, "_loaded_result_dict", VDict({"did_fit": VBool(z3.BoolVal(True))}))
+                    return {"asymmetric_parameter_errors": VBool(z3.BoolVal(False))}
+                eng.verify(cls, "do_fit", None, init, contract=c, tag=f"[{cls},{mode},pointwise={'yes' if pointwise else 'none'}]")
+    return eng
+
+
+def show_bool(v):
+    return "True" if z3.is_true(z3.simplify(v.e)) else "False" if z3.is_false(z3.simplify(v.e)) else str(v.e)
+
+
+
+# ------------------------------------------------------------------ reads: public read-only properties leave the configuration alone
+class AnyNode(dict):
+    """every node has a value: an opaque one named after the node"""
+
+    def __contains__(self, k):
+        return True
+
+    def __getitem__(self, k):
+        return Val("node:" + k)
+
+
+def same_object(a, b):
+    """identity of python-level values across the (possibly forked, hence copied) pre and post states"""
+    if a is b or (isinstance(a, VNone) and isinstance(b, VNone)):
+        return True
+    if type(a) is not type(b):
+        return False
+    if isinstance(a, VTuple):
+        return len(a.items) == len(b.items) and all(same_object(x, y) for x, y in zip(a.items, b.items))
+    if isinstance(a, VPySet):
+        return a.items == b.items
+    if isinstance(a, VStr):
+        return a.s == b.s
+    if isinstance(a, (Part, Val)):
+        return getattr(a, "name", None) == getattr(b, "name", None) and getattr(a, "tag", None) == getattr(b, "tag", None)
+    if isinstance(a, VDict):
+        return list(a.d) == list(b.d) and all(same_object(a.d[k_], b.d[k_]) for k_ in a.d)
+    if isinstance(a, (VNum, VBool)):
+        return a.e.eq(b.e)
+    return False
+
+
+PURE_CALLS = {("cost_function", "chi2_probability"), ("cost_function", "goodness_of_fit"), ("pointwise", "goodness_of_fit"), ("fitter", "get_fit_parameter_values"), ("model", "eval_model_function_derivative_by_x"), ("model", "get_matching_errors"),
+              ("container", "get_matching_errors")}
+ALLOWED_PUSH = {"parameters", "x"}          # the lazy push of the current parameter values / x values into the parametric model
+ALLOWED_FLAGS = {"_dynamic_error_warning_printed", "_slow_chi2_warning_printed"}          # 'warning already shown' flags
+
+
+def u_reads(root):
+    eng = fit_engine(root)
+    eng.node_values = AnyNode()
+    eng.missing_attr_raises = True
+    eng.lib["is_diagonal"] = lambda e, st, a, kw, node: VBool(z3.Bool("total_cov_mat_is_diagonal"))
+    eng.lib["invert_matrix"] = lambda e, st, a, kw, node: Val("inverse")
+    eng.lib["np.stack"] = lambda e, st, a, kw, node: Val("stacked")
+    eng.consts["OrderedDict"] = VLib("dict")
+    eng.consts["CovMat"] = Fn(lambda e, st, a, kw: Val("CovMat(" + getattr(a[0], "tag", "?") + ")"))
+    eng.lib["bool"] = lambda e, st, a, kw, node: VBool(e.truth(a[0]))
+    analysed, skipped = [], []
+    for cls in ("FitBase",) + CLASSES:
+        body = eng.repo.classes[cls][1].body
+        setters = {d.value.id for f in body if isinstance(f, ast.FunctionDef) for d in f.decorator_list if isinstance(d, ast.Attribute) and d.attr == "setter" and isinstance(d.value, ast.Name)}
+        for f in body:
+            if not (isinstance(f, ast.FunctionDef) and any(isinstance(d, ast.Name) and d.id == "property" for d in f.decorator_list)) or f.name.startswith("_"):
+                continue
+            if any(isinstance(d, ast.Name) and d.id == "abstractmethod" or isinstance(d, ast.Attribute) and d.attr == "abstractmethod" for d in f.decorator_list):
+                continue
+            target = cls if cls != "FitBase" else "IndexedFit"          # base-class getters are executed on a concrete subclass
+            c = Contract(target, f.name, "getter")
+
+            def post(vw, name=f.name):
+                trace = fx(vw)
+                sets = [x for x in trace if x[0] == "set"]
+                bad_sets = [x for x in sets if not (x[1] == "model" and x[2] in ALLOWED_PUSH)]
+                pushes = [x for x in sets if x[1] == "model" and x[2] in ALLOWED_PUSH]
+                current = lambda x: isinstance(x[3], Val) and (x[3].tag == "node:parameter_values" or x[3].tag.startswith("container.")) or isinstance(x[3], VTuple)
+                calls = [c_ for c_ in vw.post.ghost.get("node_calls", ())]
+                mutating_calls = [x for x in trace if x[0] == "call" and (x[1], x[2]) not in PURE_CALLS]
+                out = [("no attribute of the container, fitter, cost function or formatters is assigned", z3.BoolVal(not bad_sets)),
+                       ("the parametric model only receives the CURRENT parameter values of the graph / the x values of the container (lazy push)", z3.BoolVal(all(current(x) for x in pushes))),
+                       ("no node is marked, frozen, unfrozen or assigned", z3.BoolVal(not calls)), ("the only methods called on the parts are queries (cost / goodness-of-fit evaluation, parameter lookup, source lookup, model derivative): no source is added, disabled or enabled, the minimizer is not reset or run", z3.BoolVal(not mutating_calls))]
+                same = []
+                for fld, ty in SCHEMA["FitBase"].items():
+                    if fld in ALLOWED_FLAGS:
+                        continue
+                    a_, b_ = vw.f(vw.pre, vw.self, fld), vw.f(vw.post, vw.self, fld)
+                    same.append((a_.e == b_.e) if ty == BOOL else z3.BoolVal(same_object(a_, b_)))
+                out.append(("no attribute of the fit itself is assigned (the parts it holds are the same objects)", z3.And(same)))
+                return out
+            c.ensures.append(post)
+
+            def init(e, st, me_):
+                e.write_field(st, me_, "_nexus", RecNexus())
+                e.write_field(st, me_, "_fitter", Part("fitter", {"fixed_parameters": VDict({"a": VNum(z3.Real("fixed_a"))})}))
+                e.write_field(st, me_, "_data_container", Part("container"))
+                e.write_field(st, me_, "_param_model", Part("model", {"ndf": VNum(z3.Int("model_ndf")), "get_matching_errors": Fn(lambda e_, st_, a, kw: VDict({}))}))
+                e.write_field(st, me_, "_cost_function", Part("cost_function", {"arg_names": VTuple([VStr("data"), VStr("model")]), "add_determinant_cost": VBool(z3.Bool("add_determinant_cost")), "errors_valid": VBool(z3.Bool("cf_errors_valid")),
+                                                                                 "needs_errors": VBool(z3.Bool("needs_errors"))}))
+                e.write_field(st, me_, "_cost_function_pointwise", Part("pointwise", {"arg_names": VTuple([VStr("data"), VStr("model")])}))
+                e.write_field(st, me_, "_model_function", Part("model_function"))
+                e.write_field(st, me_, "_fit_param_constraints", VTuple([Part("constraint0", {"extra_ndf": VNum(z3.Int("extra_ndf0"))})]))
+                e.write_field(st, me_, "_fit_param_names", VTuple([VStr("a"), VStr("b")]))
+                e.write_field(st, me_, "_fit_param_names_bad_default", VPySet(frozenset()))
+                e.write_field(st, me_, "_loaded_result_dict", VNone())
+                e.write_field(st, me_, "_dynamic_error_algorithm", VStr("nonlinear"))
+                return {}
+            n0 = len(eng.obligations)
+            try:
+                eng.verify(target, f.name, "getter", init, contract=c, tag=f"[{cls}]")
+                analysed.append(f"{cls}.{f.name}")
+            except Unsupported as ex:
+                del eng.obligations[n0:]
+                skipped.append(f"{cls}.{f.name}: {ex}")
+    eng.extraction_notes = getattr(eng, "extraction_notes", []) + [f"read-only properties executed: {len(analysed)}; not executed (construct outside the supported subset): {skipped}"]
+    eng.lemma(f"at least 60 public properties were executed ({len(analysed)})", [], z3.BoolVal(len(analysed) >= 60))
+    return eng
+
+
+
+# ------------------------------------------------------------------ results are read back from the back end, not from caches filled by earlier reads
+class MinuitObj(V):
+    """iminuit.Minuit stand-in: .values / .errors are the back end's numbers - different ones after migrad()"""
+
+    def vattr(self, e, st, name):
+        after = "migrad" in [x[0] for x in st.ghost.get("fx", ())]
+        if name == "migrad":
+            return Fn(lambda e_, st_, a, kw: (log(st_, "migrad"), VNone())[1])
+        if name in ("values", "errors"):
+            return VSeq(z3.Const(f"backend_{name}_{'after' if after else 'before'}_migrad", arr(I, R)), z3.IntVal(2))
+
+
+def u_readback(root):
+    eng = engine(root, ["kafe2/core/minimizers/iminuit_minimizer.py", "kafe2/core/minimizers/minimizer_base.py"],
+                 {"MinimizerIMinuit": {"_par_val": OPTSEQ, "_par_err": OPTSEQ, "_minimizer_param_dict": PYOBJ, "_par_names": PYOBJ, "_did_fit": BOOL, "_fmin_struct": PYOBJ, "_func_handle": PYOBJ, "_fval": PYOBJ, "_par_asymm_err": PYOBJ,
+                                       "_hessian": PYOBJ, "_hessian_inv": PYOBJ, "_par_cov_mat": PYOBJ, "_par_cor_mat": PYOBJ}}, [])
+    eng.consts = {"np": VLib("np"), "_IMINUIT_1": VBool(z3.BoolVal(False))}
+    eng.lib["np.array"] = lambda e, st, a, kw, node: a[0]
+    eng.lib["np.all"] = lambda e, st, a, kw, node: VBool(z3.BoolVal(False))
+    eng.lib["copy"] = lambda e, st, a, kw, node: VTuple(list(a[0].items)) if isinstance(a[0], VTuple) else a[0]
+    eng.lib["zip"] = lambda e, st, a, kw, node: VTuple([VTuple([(p_.items[q_] if isinstance(p_, VTuple) else VNum(p_.arr[q_])) for p_ in a]) for q_ in range(2)])
+    eng.comp_models = {"[self.is_fixed(_par_name) for _par_name in self.parameter_names]": lambda e, st, n: VTuple([VBool(z3.BoolVal(False))] * 2)}
+    mobj = MinuitObj()
+    mk(eng, "MinimizerIMinuit", "_get_iminuit", result=lambda vw: mobj)
+    mk(eng, "MinimizerIMinuit", "is_fixed", result=lambda vw: VBool(z3.BoolVal(False)))
+    inline(eng, "MinimizerIMinuit", "parameter_values", "parameter_errors")
+    inline(eng, "MinimizerBase", "parameter_names")
+    mk(eng, "MinimizerIMinuit", "_invalidate_cache", inline=True)
+    mk(eng, "MinimizerBase", "_invalidate_cache", inline=True)
+    for cached in ("nothing", "values", "uncertainties", "both"):
+        c = Contract("MinimizerIMinuit", "minimize")
+        A = lambda name: z3.Const(f"backend_{name}_after_migrad", arr(I, R))
+
+        def post(vw):
+            d = vw.f(vw.post, vw.self, "_minimizer_param_dict")
+            ok = isinstance(d, VDict) and all(k_ in d.d and isinstance(d.d[k_], VNum) for k_ in ("a", "b", "error_a", "error_b"))
+            if not ok:
+                return [("values and uncertainties of every parameter are stored", z3.BoolVal(False))]
+            handed = [x for x in fx(vw, "callback")]
+            star = handed[0][1][0].seq if len(handed) == 1 and len(handed[0][1]) == 1 and isinstance(handed[0][1][0], VStar) and isinstance(handed[0][1][0].seq, VSeq) else None
+            pv1, pe1 = vw.f(vw.post, vw.self, "_par_val"), vw.f(vw.post, vw.self, "_par_err")
+            return [("the values stored as the next start values are the back end's values AFTER the minimisation (not values cached by an earlier read)", z3.And(d.d["a"].real() == A("values")[0], d.d["b"].real() == A("values")[1])),
+                    ("the uncertainties stored as the next step sizes are the back end's uncertainties AFTER the minimisation (not ones cached by an earlier read)", z3.And(d.d["error_a"].real() == A("errors")[0], d.d["error_b"].real() == A("errors")[1])),
+                    ("the caches hold nothing older than the minimisation, and a fit is recorded", z3.And(z3.Or(pv1.none, z3.And(pv1.arr[0] == A("values")[0], pv1.arr[1] == A("values")[1])), z3.Or(pe1.none, z3.And(pe1.arr[0] == A("errors")[0], pe1.arr[1] == A("errors")[1])), vw.f(vw.post, vw.self, "_did_fit").e)),
+                    ("the cost callback is finally evaluated at the minimum", z3.And(star.arr[0] == A("values")[0], star.arr[1] == A("values")[1]) if star is not None else z3.BoolVal(False))]
+        c.ensures.append(post)
+
+        def init(e, st, me_, cached=cached):
+            e.write_field(st, me_, "_minimizer_param_dict", VDict({"a": VNum(z3.Real("start_a")), "b": VNum(z3.Real("start_b"))}))
+            e.write_field(st, me_, "_par_names", VTuple([VStr("a"), VStr("b")]))
+            e.write_field(st, me_, "_func_handle", Fn(lambda e_, st_, a, kw: (log(st_, "callback", tuple(a)), VNum(z3.Real("cost_at_minimum")))[1]))
+            pv, pe = e.read_field(st, me_, "_par_val"), e.read_field(st, me_, "_par_err")
+            st.assume(pv.none == z3.BoolVal(cached in ("nothing", "uncertainties")))
+            st.assume(pe.none == z3.BoolVal(cached in ("nothing", "values")))
+            st.assume(z3.And(pv.len == 2, pe.len == 2))
+            return {}
+        eng.verify("MinimizerIMinuit", "minimize", None, init, contract=c, tag=f"[cached before: {cached}]")
+    return eng
+
+
 def units(root):
-    return [Unit("_init_nexus registry of the four fit types", u_registry), Unit("uncertainty sources: container -> fit -> graph", u_sources), Unit("data replacement", u_data), Unit("parameter constraints", u_constraints), Unit("parameter mutators", u_parameters)]
+    return [Unit("_init_nexus registry of the four fit types", u_registry), Unit("uncertainty sources: container -> fit -> graph", u_sources), Unit("data replacement", u_data), Unit("parameter constraints", u_constraints), Unit("parameter mutators", u_parameters),
+            Unit("public read-only properties: frame", u_reads), Unit("MinimizerIMinuit.minimize reads results back from the back end", u_readback, bounded="2 parameters (the write-back loop is unrolled); cached / uncached values and uncertainties at entry"), Unit("freeze / unfreeze protocol and node lists", u_freeze), Unit("do_fit typestate (balanced brackets)", u_do_fit, bounded="iterative refits unrolled to at most 2 passes (the loop body is one bracket); freeze lists, flags and cost kinds enumerated")]
